@@ -26,8 +26,8 @@ import (
 	"github.com/apache/skywalking-banyandb/pkg/fs"
 	"github.com/apache/skywalking-banyandb/pkg/index"
 	"github.com/apache/skywalking-banyandb/pkg/logger"
-	"github.com/apache/skywalking-banyandb/pkg/pipeline/sdk"
 	pbv1 "github.com/apache/skywalking-banyandb/pkg/pb/v1"
+	"github.com/apache/skywalking-banyandb/pkg/pipeline/sdk"
 	"github.com/apache/skywalking-banyandb/pkg/query/model"
 	"github.com/apache/skywalking-banyandb/pkg/run"
 	"github.com/apache/skywalking-banyandb/pkg/timestamp"
@@ -40,6 +40,22 @@ type C13Span struct {
 	TS    int64  // span timestamp (unix nanos)
 	Key   int64  // ordering key of its secondary-index entry
 	Size  int    // payload size in bytes (0: just "payload-<ID>"); larger payloads are zero-padded
+	Rand  bool   // pad with a deterministic incompressible byte stream (seeded by ID) instead of zeros
+}
+
+// c13Fill writes the deterministic pseudo-random pad of span id into b (xorshift64 seeded by FNV-1a of the id).
+func c13Fill(id string, b []byte) {
+	x := uint64(14695981039346656037)
+	for i := 0; i < len(id); i++ {
+		x = (x ^ uint64(id[i])) * 1099511628211
+	}
+	x |= 1
+	for i := range b {
+		x ^= x << 13
+		x ^= x >> 7
+		x ^= x << 17
+		b[i] = byte(x >> 32)
+	}
 }
 
 // C13Payload is the payload written for a span.
@@ -50,7 +66,16 @@ func C13Payload(s C13Span) []byte {
 	}
 	b := make([]byte, s.Size)
 	copy(b, head)
+	if s.Rand {
+		c13Fill(s.ID, b[len(head):])
+	}
 	return b
+}
+
+// C13StageBudget returns the per-merge staging budget (hard ceiling of a decision batch) the engine resolves for a
+// protector memory limit (resolveStageBudget without the test override).
+func C13StageBudget(limit uint64) uint64 {
+	return resolveStageBudget(option{protector: c13Protector{limit: limit}})
 }
 
 // C13MaxBlockSpanBytes is the engine's per-block span byte limit (maxUncompressedSpanSize): a trace at or above it is
@@ -78,7 +103,7 @@ type C13Cfg struct {
 	Grace      time.Duration // merge grace (also enforced max fragment gap)
 	SegStart   time.Time
 	SegEnd     time.Time
-	ForceSlow  bool // package test seam forceSlowMerge (disables the raw fast path)
+	ForceSlow  bool   // package test seam forceSlowMerge (disables the raw fast path)
 	MemLimit   uint64 // protector memory limit (0: protector.Nop, no limit)
 }
 
@@ -203,7 +228,11 @@ func (v *C13Table) SetNow(t time.Time) { v.tst.setMergeNow(t) }
 
 // Write introduces one batch exactly like mustAddTracesWithSegmentID+mustAddMemPart do, with the introducer's part
 // (introducePart) executed inline: trace mem part plus one sidx mem part with one entry per span.
-func (v *C13Table) Write(spans []C13Span) {
+func (v *C13Table) Write(spans []C13Span) { v.WriteSeg(spans, 0) }
+
+// WriteSeg is Write for a batch that belongs to segment segmentID (mustAddTracesWithSegmentID as called by the liaison
+// write queue, whose shard table holds memory parts of several segments; 0 = standalone/data node).
+func (v *C13Table) WriteSeg(spans []C13Span, segmentID int64) {
 	if len(spans) == 0 {
 		return
 	}
@@ -234,6 +263,7 @@ func (v *C13Table) Write(spans []C13Span) {
 	}
 	mp := generateMemPart()
 	mp.mustInitFromTraces(ts)
+	mp.segmentID = segmentID
 	releaseTraces(ts)
 	p := openMemPart(mp)
 	ind := generateIntroduction()
@@ -341,6 +371,7 @@ type C13Part struct {
 	ID          uint64
 	MinTS       int64
 	MaxTS       int64
+	Seg         int64 // memory parts: the segment id the part was acknowledged for
 	FinalizeGen uint64
 	TotalCount  uint64
 	Blocks      int
@@ -362,6 +393,9 @@ func (v *C13Table) Parts(traceIDs []string) []C13Part {
 		pm := pw.p.partMetadata
 		cp := C13Part{ID: pw.ID(), Mem: pw.mp != nil, MinTS: pm.MinTimestamp, MaxTS: pm.MaxTimestamp, FinalizeGen: pm.FinalizeGen,
 			TotalCount: pm.TotalCount, Traces: map[string][]string{}, Bloom: map[string]bool{}}
+		if pw.mp != nil {
+			cp.Seg = pw.mp.segmentID
+		}
 		for _, id := range ids {
 			cp.Bloom[id] = pw.p.traceIDFilter.filter != nil && pw.p.traceIDFilter.filter.MightContain(convert.StringToBytes(id))
 		}
@@ -400,6 +434,7 @@ type C13Obs struct {
 	Tag        string
 	PayloadLen int
 	ZeroTail   bool // every byte after the head is zero
+	RandTail   bool // the bytes after the head are the deterministic pad of C13Span.Rand
 }
 
 // Query runs the trace-id query pipeline of trace.Query (staticTraceBatchSource -> startBlockScanStage ->
@@ -441,6 +476,11 @@ func (v *C13Table) Query(traceIDs []string) (map[string][]C13Obs, error) {
 						o.ZeroTail = false
 						break
 					}
+				}
+				if !o.ZeroTail {
+					want := make([]byte, len(b)-h)
+					c13Fill(o.ID, want)
+					o.RandTail = string(want) == string(b[h:])
 				}
 			}
 			if len(r.Tags) == 1 && i < len(r.Tags[0].Values) {
